@@ -1092,7 +1092,7 @@ def table_and_case(c, r, g):
     if k == 'tx':
         for sl in top_items(fb(r['tx']))[:1] + [fb(r['body'])]:
             T.add((32, sl)); T.add((g['tx_size'], sl))
-        lit = f'KTx {hx(r["tx"])} {hx(r["body"])} {hx(r["id_body"])} {hx(r["id_tx"])}'
+        lit = f'KTx {hx(r["tx"])} {hx(r["body"])} {hx(r["id_body"])} {C.clist([hx(r["id_tx"]), hx(r["id_hash"])])}'
     elif k == 'datum':
         ws, out = fb(r['ws']), fb(r['out'])
         cand = [fb(r['direct'])] if r['direct'] else []
@@ -1118,15 +1118,19 @@ def table_and_case(c, r, g):
             T.add((32, sl)); T.add((g['aux_size'], sl))
         lit = f'KAux {hx(r["tx"])} {hx(r["direct"])} {hx(r["id"])}'
     elif k == 'build':
-        for sl in [s for s in top_items(fb(r['tx']))[3:] if s != b'\xf6'] + ([fb(r['aux_in'])] if r['aux_in'] else []):
+        its = top_items(fb(r['tx']))
+        for sl in [s for s in its[3:] if s != b'\xf6'] + ([fb(r['aux_in'])] if r['aux_in'] else []):
             T.add((32, sl)); T.add((g['aux_size'], sl))
-        lit = f'KBuild {C.copt(hx(r["aux_in"]) if r["aux_in"] else None)} {hx(r["tx"])}'
+        for sl in its[:1]:
+            T.add((32, sl)); T.add((g['tx_size'], sl))
+        lit = f'KBuild {C.copt(hx(r["aux_in"]) if r["aux_in"] else None)} {hx(r["tx"])} {hx(r["id_tx"])}'
     elif k == 'key':
         p, nx = fb(r['payload']), fb(r['nx_payload'])
         for m in (p, p[:32], p[:g['ext_cut']], nx, nx[:32]):
             T.add((28, m)); T.add((g['key_size'], m))
         lit = (f'KKey {C.cbool(r["ext"])} {hx(r["payload"])} {hx(r["cb"])} {hx(r["id"])} '
-               f'{hx(r["nx_payload"])} {hx(r["nx_id"])}')
+               f'{hx(r["nx_payload"])} {hx(r["nx_id"])} '
+               f'{C.clist([hx(x) for x in (r["via_sk"], r["id_restored"]) if x is not None])}')
     elif k == 'native':
         T |= script_msgs(['native', c['s']], g, extra_bytes=[fb(r['cb'])])
         lit = (f'KNative {r_native(c["s"])} {hx(r["cb"])} {hx(r["id"])} {hx(r["id_sh"])} '
